@@ -259,13 +259,13 @@ def st_c_spin(draw):
     n1 = draw(st.integers(1, 5))
     return {"n1": n1, "ls": [draw(G.logfloat(0.15, 8.0)) for _ in range(n1)],
             "scale": draw(st.one_of(st.none(), G.logfloat(0.05, 20.0))),
-            "form": draw(st.sampled_from(["plain", "slice_all", "tools"])), "nctrl": draw(st.integers(1, 30)),
+            "form": draw(st.sampled_from(["plain", "slice_all", "tools", "subset_list", "subset_prefix"])), "nctrl": draw(st.integers(1, 30)),
             "n": draw(st.integers(1, 12)), "equal_spins": draw(st.integers(0, 4)) == 0, "seed": draw(SEED)}
 
 
 @subcheck("C11", "c_spin", st_c_spin, quick=800, thorough=12000,
           rule="SpinRBFEvaluator (POL mode kernel k_aa k_bb + k_ab k_ba) over DiffRBF / Constant*DiffRBF / "
-               "get_rbf_kernel(slice(0,None)), control points (2,nctrl,N1), samples (2,n,N1) incl. equal spin channels; "
+               "get_rbf_kernel(slice(0,None)) / SubsetRBF on a proper subset of the columns (index list or leading block), control points (2,nctrl,N1), samples (2,n,N1) incl. equal spin channels; "
                "reference from the Python kernel's k_and_deriv with the product rule; value and both spin gradients to "
                "1e-12 * sum|alpha| scale^2; res/dres passed as MappedDFTKernel passes them, accumulation; "
                "non-trivial = spin channels differ",
@@ -279,7 +279,20 @@ def c_spin(case, ctx):
     ls = np.array(case["ls"])
     sc = 1.0 if case["scale"] is None else case["scale"]
     rng = rng_from(case["seed"])
-    if case["form"] == "tools":
+    if case["form"] in ("subset_list", "subset_prefix"):
+        # the kernel acts on a proper subset of the columns (scattered list, or a leading block narrower than the
+        # descriptor); control points and samples keep the full width, as MappedDFTKernel hands them over
+        if n1 == 1:
+            idx = [0]
+        elif case["form"] == "subset_prefix":
+            idx = list(range(1 + case["seed"] % (n1 - 1)))
+        else:
+            idx = sorted(rng_from(case["seed"] + 5).choice(n1, 1 + case["seed"] % (n1 - 1), replace=False).tolist())
+        sel = idx if case["form"] == "subset_list" else slice(0, len(idx))
+        base = K.SubsetRBF(sel, length_scale=ls[idx])
+        kernel = base if case["scale"] is None else K.DiffConstantKernel(sc) * base
+        ls = ls[idx]
+    elif case["form"] == "tools":
         kernel = kt.get_rbf_kernel(slice(0, None), ls, scale=sc)
     else:
         base = K.DiffRBF(length_scale=ls) if case["form"] == "plain" else K.SubsetRBF(slice(0, n1, 1), length_scale=ls)
